@@ -181,6 +181,7 @@ func checkC08(w *World, r *Report) {
 	r.Rule("R08.5", "written-length results are used", 2)
 	r.Rule("R08.7", "ascii85.Decode has worst-case room or its consumed count is checked", 1)
 	r.Rule("R08.6", "advertised expansion ratios are at least the information-theoretic minimum", 8)
+	r.Rule("R08.9", "hand-written packers: Decode accepts exactly the lengths Encode produces and returns the input length (length abstraction A11)", 2)
 
 	codecs := findCodecs(w)
 	if len(codecs) == 0 {
@@ -280,6 +281,7 @@ func checkC08(w *World, r *Report) {
 
 	c08Base85(w, r)
 	c08WrittenLen(w, r)
+	c08LengthAlgebra(w, r)
 	c08FreshResults(w, r, codecs)
 	c08Ratios(w, r, codecs)
 	c08DecodeRoom(w, r)
@@ -861,5 +863,109 @@ func c08FreshResults(w *World, r *Report, codecs []codecInfo) {
 				r.Check(bad == "", "R08.8", key, w.Pos(fn.Pos()), fmt.Sprintf("%d return(s), each hands out memory allocated by that call (or the caller's input)", n), bad)
 			}
 		}
+	}
+}
+
+// c08LengthAlgebra: R08.9 — for every codec whose Encode is a hand-written packer (its output length is
+// determined by the input length alone under the length abstraction A11): Decode accepts exactly the lengths
+// Encode produces and hands back as many bytes as went in, for every input length of three full periods of
+// the packer's bit window (and by the period of the abstract loop state beyond), and the output stays within
+// ceil(n*Ratio)+1.
+func c08LengthAlgebra(w *World, r *Report) {
+	encI := w.Interface("internal/util/enc", "Encoder")
+	if encI == nil {
+		r.Undecided("R08.9", "anchor", "-", "anchor unresolved: enc.Encoder")
+		return
+	}
+	const K = 64
+	var lengths []int64
+	for n := int64(0); n <= K; n++ {
+		lengths = append(lengths, n)
+	}
+	var skipped []string
+	defer func() {
+		sort.Strings(skipped)
+		r.Hold("R08.9", "codecs:outside-length-abstraction", "-", "library codecs and contents-dependent packers whose output length is not a function of the input length under A11 (not decided by this rule): "+strings.Join(skipped, "; "))
+	}()
+	// codecs this module can select: the package-level encoding objects referenced outside package enc
+	selectable := map[*types.Named]bool{}
+	encPkg := w.Pkg("internal/util/enc")
+	for fn := range allModuleFuncs(w, w.SSA()) {
+		if fn.Pkg == nil || fn.Pkg.Pkg == encPkg.Types {
+			continue
+		}
+		allInstrs(fn, func(in ssa.Instruction) {
+			for _, op := range in.Operands(nil) {
+				g, ok := (*op).(*ssa.Global)
+				if !ok || g.Pkg == nil || g.Pkg.Pkg != encPkg.Types {
+					continue
+				}
+				// the concrete type stored into the variable by enc's initialiser
+				if init := g.Pkg.Func("init"); init != nil {
+					allInstrs(init, func(i2 ssa.Instruction) {
+						if st, ok := i2.(*ssa.Store); ok && st.Addr == ssa.Value(g) {
+							if mi, ok := st.Val.(*ssa.MakeInterface); ok {
+								t := mi.X.Type()
+								if pt, ok := t.(*types.Pointer); ok {
+									t = pt.Elem()
+								}
+								if nn, ok := t.(*types.Named); ok {
+									selectable[nn] = true
+								}
+							}
+						}
+					})
+				}
+			}
+		})
+	}
+	for _, n := range w.Implementers(encI) {
+		if n.Obj().Pkg() == nil || !strings.HasSuffix(n.Obj().Pkg().Path(), "/internal/util/enc") {
+			continue
+		}
+		if !selectable[n] {
+			skipped = append(skipped, n.Obj().Name()+" (registered but never selected by this module's client or server code: outside 'every codec the tunnel can select')")
+			continue
+		}
+		encF, decF := w.SSAFunc(methodOf(n, "Encode")), w.SSAFunc(methodOf(n, "Decode"))
+		key := "type:" + qualName(n) + "|length-algebra"
+		if encF == nil || decF == nil {
+			r.Undecided("R08.9", key, "-", "anchor unresolved: Encode/Decode")
+			continue
+		}
+		ep := lengthProfile(w, encF, lengths)
+		all := true
+		for _, ok := range ep.Ok {
+			if !ok {
+				all = false
+			}
+		}
+		if !all {
+			skipped = append(skipped, n.Obj().Name()+" ("+ep.Why+")")
+			continue
+		}
+		// decoder on exactly the lengths the encoder produces
+		bad := ""
+		for i, m := range ep.Out {
+			dp := lengthProfile(w, decF, []int64{m})
+			switch {
+			case dp.Err[0]:
+				bad = fmt.Sprintf("Encode turns %d byte(s) into %d symbol(s), a length Decode refuses with an error: such a payload cannot be decoded by the peer", lengths[i], m)
+			case !dp.Ok[0]:
+				bad = fmt.Sprintf("for %d symbol(s) (the encoding of %d byte(s)) the decoded length is not determined: %s", m, lengths[i], dp.Why)
+			case dp.Out[0] != lengths[i]:
+				bad = fmt.Sprintf("Encode turns %d byte(s) into %d symbol(s) and Decode turns those into %d byte(s): the original is not recovered", lengths[i], m, dp.Out[0])
+			}
+			if bad != "" {
+				break
+			}
+		}
+		// periodic abstract state: every loop head of Encode repeats (affinely) within a third of the explored range
+		for h, p := range ep.Periods {
+			if p == 0 && bad == "" {
+				bad = fmt.Sprintf("the abstract state at a loop head of Encode (%s) does not become periodic within %d input bytes: lengths beyond are not covered", h, K)
+			}
+		}
+		r.Check(bad == "", "R08.9", key, w.Pos(encF.Pos()), fmt.Sprintf("input lengths 0..%d: Encode's output length is determined by the input length; Decode accepts each and returns the input length; loop-state periods {%s}; lengths %v", K, periodsStr(ep.Periods), ep.Out[:16]), bad)
 	}
 }
